@@ -46,6 +46,10 @@ ASSUMPTIONS = ["every port carries min/max metadata with min <= max, both multip
                "model/implementation comparison is bit-exact (it ties the model to the code as it is): an "
                "implementation that differs from the model only by values inside this tolerance is reported as a "
                "correspondence break without failing input (no-failing-input-found), never as a property failure",
+               "'the value composed with the other half' is read as: the other half of the 14-bit value is the LAST "
+               "7-bit value that the controller bound to the other half of the same address sent while the realtime "
+               "half had it bound, 0 if it sent none or if no controller is bound to that half; a controller that a "
+               "delivered snapshot no longer binds forgets its value (Lean: lastVals, a function of the history)",
                "unMap(a,k) while (a,k) is still queued for learning leaves it queued (the statement's 'unmapping an "
                "address stops its controller' is read as: the controller bound to it stops; code, model and oracle "
                "share this reading)"]
@@ -55,37 +59,47 @@ TRUSTED = ["hand-written model RtoscModel/Midi.lean of midimapper.cpp (MidiMappe
            "list — proved to be a sound abstraction of the 32-cell ring: pending_queue_is_ring)",
            "the address text is not modelled (an address is the index of its port); Ports::apropos finding nested "
            "ports and the 1024-byte message buffers are exercised by the correspondence run only",
-           "the final packing of sign/significand/exponent into the 32 bits of a float (f32OfDyadic) is tied to the "
-           "code by the bit-exact correspondence run",
+           "the reading of IEEE-754 binary32 against which the float bit packing is proved (f32Scaled: sign = bit 31, "
+           "biased exponent = bits 30..23, fraction = bits 22..0; float_bits_denote_rounded_value); that the compiled "
+           "code's float/double arithmetic is IEEE-754 round-to-nearest-even is tied to the model by the bit-exact "
+           "correspondence run",
            "the idealised learn protocol in tools/props/c20.py (the oracle's reading of the statement; it reproduces "
            "the watch-credit handshake of the code)"]
 TECHNIQUE = "Lean 4 model + invariant proofs over all interleavings; differential run against the real two halves"
 LEVEL_TEXT = ("Lean theorems over every history and every delivery order of the two channels. Proved for every history, "
               "hazards included: one message per value, none from other steps; the value sent is the port's callback "
-              "applied to the 14-bit value with the incoming value in the controller's half; the value actually "
-              "EMITTED (after rounding to float / truncation to int) lies in [min,max] and is monotone (int ports: "
-              "integral bounds, see assumptions; float ports: for the rounded value, the IEEE bit packing is "
-              "correspondence-checked); the message type follows the port's signature for every spelling the "
-              "protocol declares; structural safety of the snapshots; the pending ring refines to the model's list "
-              "for sessions of any length. The learn-handshake clauses (assigned to the oldest queued address, "
-              "never-assigned controllers silent, other bindings unaffected, unmap stops) are proved for every "
-              "history in which neither of the two known defect triggers fires, and both defects have proved "
-              "counterexamples; the model is compared bit-exactly with the real MidiMapperRT/MidiMappernRT on "
+              "applied to the 14-bit value with the incoming value in the controller's half; the argument actually "
+              "EMITTED (the int after rounding to float and truncation; the float as its 32 bits, proved to be a finite "
+              "IEEE-754 pattern denoting exactly the round-to-nearest-even of the linear map's value) lies in [min,max], "
+              "has the port's type and is monotone, for every well-formed port incl. the 0..127 special case (int "
+              "ports: integral bounds, see assumptions); the message type follows the port's signature for every "
+              "spelling the protocol declares; structural safety of the snapshots; the pending ring refines to the "
+              "model's list for sessions of any length. Proved for every history in which neither of the two known "
+              "defect triggers fires: the learn-handshake clauses (assigned to the oldest queued address, "
+              "never-assigned controllers silent, other bindings unaffected, unmap stops) and the end-to-end numeric "
+              "clause (emits_composed_value_partial for every step of every such history, run_emits_composed_values "
+              "for the message sequence of a run of the executable model): a controller value produces no message if "
+              "the controller is bound to nothing, else exactly one message to the bound address, carrying the value "
+              "composed from the incoming 7-bit value and the LAST value (a function of the history alone, carried "
+              "across every midi-bind/cloneValues) of the controller bound to the other half of the same address (0 if "
+              "none), in range and monotone in the incoming value. Both defects have proved counterexamples for every "
+              "clause they break; the model is compared bit-exactly with the real MidiMapperRT/MidiMappernRT on "
               "thousands of generated histories per run and the property is evaluated directly on the "
               "implementation's output")
-CLONE_NOTE = (" and across every midi-bind of a hazard-free history (half_survives_bind_partial: cloneValues keeps "
-              "each bound controller's 7-bit half)")
 LEVEL_NOTE = ("partial for histories in which a /midi-use-CC request meets an empty learn queue (C20-K1; proved to need a "
               "clear) or a midi-bind that answers no request is delivered while a request is in flight (C20-K2); such a "
               "history (about 20 % of the generated ones) is attributed to the finding only if the trigger holds, the "
               "implementation's output has the structure the defect-mirroring model predicts (same messages, "
               "addresses, types; values within tolerance) AND the part of the history in front of the first hazard "
-              "step satisfies the property on the implementation's own output. Open: that the OTHER half of a 14-bit "
-              "value is the last value of the address's other controller is proved at the storage level "
-              "(fine_composes_14bit: shared slot, coarse then fine, no midi-bind in between)" + CLONE_NOTE + "; the "
-              "monotone clause is proved of the value function (for any other half); these pieces are not "
-              "assembled into one end-to-end theorem about the sequence of messages of a whole history — that is "
-              "what the oracle checks on every generated history")
+              "step satisfies the property on the implementation's own output. Decided for histories WITH hazards: "
+              "half_survives_bind and the end-to-end value clause are FALSE after a K2 hazard "
+              "(half_survives_bind_counterexample, emits_composed_value_counterexample: a controller assigned twice "
+              "has two mapping entries, cloneValues lets the last one win and zeroes the controller's last value at "
+              "the next midi-bind, so the next fine value is composed with 0; witness in corpus/C20.ops); the exact "
+              "hypothesis is well-formedness of the two snapshots (half_survives_bind_wellformed: any reachable state, "
+              "distinct controller IDs per snapshot, no half of a slot owned twice). Still open: nothing is proved "
+              "about WHICH value is sent after a hazard beyond value_in_range_monotone (some 7-bit other half); int "
+              "ports with fractional bounds are outside the range theorems (int_port_fractional_bound_counterexample)")
 
 THEOREMS += [
     "Rtosc.Midi.one_message_per_value",
@@ -95,11 +109,19 @@ THEOREMS += [
     "Rtosc.Midi.emitted_int_in_range_monotone",
     "Rtosc.Midi.emitted_float_in_range_monotone",
     "Rtosc.Midi.f32Round_value",
+    "Rtosc.Midi.float_bits_denote_rounded_value",
+    "Rtosc.Midi.emitted_float_bits_in_range_monotone",
+    "Rtosc.Midi.emitted_value_in_range_monotone",
     "Rtosc.Midi.int_port_fractional_bound_counterexample",
     "Rtosc.Midi.message_type_follows_port",
     "Rtosc.Midi.port_type_follows_signature",
     "Rtosc.Midi.fine_composes_14bit",
     "Rtosc.Midi.half_survives_bind_partial",
+    "Rtosc.Midi.half_survives_bind_wellformed",
+    "Rtosc.Midi.half_survives_bind_counterexample",
+    "Rtosc.Midi.emits_composed_value_partial",
+    "Rtosc.Midi.run_emits_composed_values",
+    "Rtosc.Midi.emits_composed_value_counterexample",
     "Rtosc.Midi.rt_acts_on_past_table",
     "Rtosc.Midi.pending_queue_is_ring",
     "Rtosc.Midi.assigned_to_oldest_partial",
